@@ -91,6 +91,16 @@ func DrawStructural(rt *rapid.T, o StructOpt) *Subject {
 			}
 		}
 	}
+	if len(env.Twins) == 2 {
+		// both same-spelled types, the plain one first, on their own and as elements
+		for _, t := range []*progen.Type{progen.NamedT(env.Twins[0]), progen.NamedT(env.Twins[1]), progen.PtrTo(progen.NamedT(env.Twins[0])), progen.PtrTo(progen.NamedT(env.Twins[1]))} {
+			k := progen.AssignKey(t)
+			if !seen[k] && (o.TypeOK == nil || o.TypeOK(t)) {
+				seen[k] = true
+				types = append(types, t)
+			}
+		}
+	}
 	if len(env.GenericInsts) > 0 {
 		// the instantiations of one generic struct side by side: as fields of one struct (in declaration order: the one
 		// without references first), as elements and on their own
